@@ -794,6 +794,64 @@ def execute(plan):
                 violation("schema-implementers", "initial",
                           "abstract type %s has implementers %r, the schema "
                           "text declares %r" % (a, sub0[a], want), 0)
+        if plan.get("src_import") and not plan.get("schema_in_package") \
+                and plan["abstract"] and not plan.get("imports_in_src"):
+            # ONE SchemaLoader serves two different schemas that import the
+            # same types file (it is cached on the loader): in the first a
+            # type zzprobe implements an abstract type of that file, in the
+            # second a type of the same name implements nothing
+            a0 = plan["abstract"][0]
+            s_impl = ('<schema>\n  <import src="c12-types.xml"/>\n'
+                      '  <sectiontype name="zzprobe" implements="%s"/>\n'
+                      '</schema>\n' % a0)
+            s_plain = ('<schema>\n  <import src="c12-types.xml"/>\n'
+                       '  <sectiontype name="zzprobe"/>\n'
+                       '  <multisection type="%s" name="*" attribute="zzx"/>'
+                       '\n</schema>\n' % a0)
+            st_ = dict(pkgfiles)
+            st_["file:///sim/schema/zzprobe.conf"] = "<zzprobe/>\n"
+            w.store = st_
+            w.begin_op("schema-loader-twin-probe")
+            outcomes = []
+            for shared in (False, True):
+                slp = ZConfig.loader.SchemaLoader()
+                if shared:
+                    ops.schema_outcome(lambda: ops.load_schema_text(
+                        s_impl, SCHEMA_URL.replace(".xml", "-pa.xml"), slp))
+                sp = ops.schema_outcome(lambda: ops.load_schema_text(
+                    s_plain, SCHEMA_URL.replace(".xml", "-pb.xml"), slp))
+                if not sp["ok"]:
+                    outcomes.append(("schema", ops.brief(sp), None))
+                    continue
+                oc_ = ops.guarded(lambda: {"ok": True, "tree": bool(
+                    ZConfig.loadConfig(sp["schema"],
+                                       "file:///sim/schema/zzprobe.conf"))})
+                try:
+                    subs = sorted(sp["schema"].gettype(a0).getsubtypenames())
+                except Exception:
+                    subs = None
+                outcomes.append(("ok" if oc_["ok"] else oc_["cls"],
+                                 ops.brief(oc_), subs))
+            w.end_op("done")
+            out["evaluations"] += 2
+            probe("schema-loader-twin-probe")
+            if outcomes[0][0] == "ok":
+                violation("non-implementer-admitted", "twin-probe",
+                          "a type that implements nothing was admitted into "
+                          "the slot of %s (fresh SchemaLoader): %r"
+                          % (a0, outcomes[0]), 0)
+            elif outcomes[1][0] != outcomes[0][0]:
+                what = "twin-probe"
+                if outcomes[1][0] == "ok" and outcomes[1][2] \
+                        and "zzprobe" in outcomes[1][2]:
+                    what = "stale-implementer-name-on-a-cached-types-file"
+                violation("non-implementer-admitted", what,
+                          "a SchemaLoader that had loaded a schema in which "
+                          "zzprobe implements %s (declared in a shared, "
+                          "cached types file) then loads a schema in which "
+                          "zzprobe implements nothing: <zzprobe/> in the "
+                          "slot of %s gives %r; with a fresh SchemaLoader %r"
+                          % (a0, a0, outcomes[1], outcomes[0]), 0)
         stale = set()
         reuse = None
         if plan.get("reuse_loader"):
